@@ -412,3 +412,7 @@ M("r15-benign-ascending-loop", ["C09", "C01", "C05", "C06"], "benign",
 
 M("r15-compare-cores-only", ["C09", "C01", "C05", "C06"], "break",
   [("yaep.c", "      if (pl[pl_curr + 1 - dist] != pl[place + 1 - dist])", "      if (pl[pl_curr + 1 - dist]->core != pl[place + 1 - dist]->core)")], "compares-sets")
+M("t1-order-swapped", ["C02"], "break", [("yaep.c", "		    rule->order[el] = i;", "		    rule->order[i] = el;")], "order[el]=i")
+M("t1-nil-not-counted", ["C02"], "break",
+  [("yaep.c", "		    else\n		      rule->trans_len++;\n		  }\n		else if (rule->order[el] >= 0)", "		  }\n		else if (rule->order[el] >= 0)")], "trans_len")
+M("t1-start-rule-no-translation", ["C02"], "break", [("yaep.c", "	  rule->order[0] = 0;\n	  rule->trans_len = 1;", "	  rule->trans_len = 1;")], "start-rule-order")
